@@ -64,6 +64,8 @@ def _count(out, res, faulted=False):
     out.sim_time += res.end_time if res.end_time < 1e6 else 0.0
     for f in res.fired:
         out.stats["fault:" + f["kind"]] += 1
+        if f.get("at") == "block":
+            out.stats["probe:worker_killed_while_blocked"] += 1
     if res.ntasks >= 3:
         out.fps.add(res.sched_fp + ":" + res.cfg_key)
     for b in res.barrier_stats:
@@ -299,7 +301,11 @@ def _case_body(ch, out, cfg, content, hot, line, nvar, fault_kind, other_layout,
         if holders:
             tname = holders[ch.draw("fault_task", len(holders))]
             use_line = bool(line) and ch.chance("fault_at_line", 1, 2) and r0.worker_lines.get(tname, 0) > 0
-            if use_line:
+            use_block = (fault_kind == "kill" and r0.worker_blocks.get(tname, 0) > 0 and ch.chance("kill_while_blocked", 1, 3))
+            if use_block:
+                k = ch.draw("fault_block", r0.worker_blocks[tname])
+                f = dict(kind="kill", task=tname, at="block", k=k, arg=0)
+            elif use_line:
                 k = ch.draw("fault_line", r0.worker_lines[tname])
                 f = dict(kind=fault_kind, task=tname, at="line", k=k, arg=ch.draw("exc_type", 4))
             else:
